@@ -65,6 +65,7 @@ EXCLUDED = [
 ]
 
 SYNTH = "vp_c11_synth"
+TMP_PREFIX = "c11-"
 LINEBREAKS = u"\n\r\x0b\x0c\x1c\x1d\x1e\x85\u2028\u2029"
 
 KINDS = ["text", "raw", "ds_list", "ds_str", "cmd", "ccmd", "cfile"]
@@ -123,7 +124,26 @@ def renamed_location(prefix, rel, save_as):
     return prefix + "/" + loc if prefix else loc
 
 
+def _sweep_stale_tmp():
+    """A worker that is terminated in the middle of a case (core stops the pool at the first failure)
+    cannot run its finally-clause; remove the directories of processes that no longer exist."""
+    top = tempfile.gettempdir()
+    for fn in os.listdir(top):
+        if not fn.startswith(TMP_PREFIX):
+            continue
+        pid = fn[len(TMP_PREFIX):].split("-")[0]
+        if not pid.isdigit():
+            continue
+        try:
+            os.kill(int(pid), 0)
+        except ProcessLookupError:
+            shutil.rmtree(os.path.join(top, fn), ignore_errors=True)
+        except OSError:
+            pass
+
+
 def selftest():
+    _sweep_stale_tmp()
     assert eq_upto_trailing_empty(["a", ""], ["a"]) and eq_upto_trailing_empty(["a"], ["a", ""])
     assert eq_upto_trailing_empty([], [""]) and eq_upto_trailing_empty(["a", "", ""], ["a", ""])
     assert not eq_upto_trailing_empty(["a", "", ""], ["a"]) and not eq_upto_trailing_empty(["", "a"], ["a"])
@@ -358,7 +378,7 @@ def _shape_docs(name, doc):
     ]
 
 
-def _apply_fault(fault, path, name, doc, data_root):
+def _apply_fault(fault, path, name, doc, data_root, locs):
     """Damage one metadata entry; returns the label of what was really done."""
     kind, n = fault.get("kind", "none"), fault.get("n", 0)
     if kind == "none":
@@ -383,11 +403,11 @@ def _apply_fault(fault, path, name, doc, data_root):
         with open(path, "w") as f:
             json.dump(shapes[n % len(shapes)], f)
     elif kind == "datafile":
-        res = doc.get("results")
-        res = res if isinstance(res, list) else ([res] if res else [])
-        if not res:
+        if not locs:
             return "none"
-        target = os.path.join(data_root, res[n % len(res)]["object"]["relative_path"])
+        target = os.path.join(data_root, locs[n % len(locs)])
+        if not os.path.isfile(target):
+            return "none"
         os.remove(target)
     elif kind == "dir":
         os.remove(path)
@@ -434,7 +454,7 @@ def check(case):
     tag = case.get("tag", "")
     via = case.get("via", "hydrate")
 
-    tmp = tempfile.mkdtemp(prefix="c11-")
+    tmp = tempfile.mkdtemp(prefix="%s%d-" % (TMP_PREFIX, os.getpid()))
     root = os.path.join(tmp, "host")
     out = os.path.join(tmp, "out", "insights-archive")
     os.makedirs(root)
@@ -570,7 +590,10 @@ def check(case):
                     raise Violation("single-output component %s not persisted as one result" % name, doc=doc)
                 recorded = [res]
             for k, (e, r) in enumerate(zip(elems, recorded)):
-                rloc = r.get("object", {}).get("relative_path") if isinstance(r, dict) else None
+                obj = r.get("object") if isinstance(r, dict) else None
+                rloc = obj.get("relative_path") if isinstance(obj, dict) else None
+                if rloc is None:
+                    continue    # location not recorded in this form; it is checked on the loaded provider
                 if rloc != e["loc"]:
                     raise Violation("component %s element %d (%s): persisted at %r, the renaming rule gives %r"
                                     % (name, k, e["plan"]["kind"], rloc, e["loc"]),
@@ -585,7 +608,8 @@ def check(case):
         for ci in range(len(comps)):
             name = dr.get_name(comps[ci])
             path, doc = docs[name]
-            done.append(_apply_fault(faults[ci], path, name, doc, data_root))
+            locs = [e["loc"] for e in (expected[ci] or [])]
+            done.append(_apply_fault(faults[ci], path, name, doc, data_root, locs))
             labels.add("fault:" + done[-1])
 
         # -- analysis side --------------------------------------------------------------------------
@@ -790,10 +814,10 @@ def strat_faults(tier):
 
 SUBS = [
     Sub("roundtrip", check, strategy=strat_roundtrip, quick=200, thorough=2500, workers_quick=4,
-        workers_thorough=16, budget_quick=45, budget_thorough=540,
+        workers_thorough=16, budget_quick=27, budget_thorough=280,
         doc="every provider kind x content x save_as, no damage: what was persisted is what is loaded"),
     Sub("faults", check, strategy=strat_faults, quick=250, thorough=2500, workers_quick=4,
-        workers_thorough=16, budget_quick=45, budget_thorough=540,
+        workers_thorough=16, budget_quick=27, budget_thorough=280,
         doc="a generated fault per metadata entry: loading never raises, intact entries load intact"),
 ]
 
